@@ -1,6 +1,7 @@
 package main
 
 import (
+	"bytes"
 	"fmt"
 	"io/ioutil"
 	"os"
@@ -51,7 +52,7 @@ func crashChildMain(args []string) {
 			os.Exit(3)
 		}
 		for _, e := range parseKVs(args[2]) {
-			d.SaveEntity(db.NewEntity(string(e.k), e.v, nil))
+			d.SaveEntity(db.NewEntity(string(e.k), e.v, privOf(e.v)))
 		}
 	case "cfg":
 		startTransport(args[1], args[2])
@@ -169,7 +170,7 @@ func runCrash(id string, toks []string) (res string) {
 		d, _ := db.NewDatabase(dir)
 		var names [][]byte
 		for _, e := range olds {
-			d.SaveEntity(db.NewEntity(string(e.k), e.v, nil))
+			d.SaveEntity(db.NewEntity(string(e.k), e.v, privOf(e.v)))
 			names = append(names, e.k)
 		}
 		for _, e := range sets {
@@ -196,7 +197,12 @@ func runCrash(id string, toks []string) (res string) {
 					out = append(out, hx(n)+"=nf")
 				}
 			} else {
-				out = append(out, hx(n)+"="+hx(e.PublicKey))
+				v := hx(e.PublicKey)
+				if !bytes.Equal(e.PrivateKey, privOf(e.PublicKey)) {
+					// every entity was saved with the private key that belongs to its public key: anything else is a mixture
+					v += "!priv=" + hx(e.PrivateKey)
+				}
+				out = append(out, hx(n)+"="+v)
 			}
 		}
 		es, err := d2.Entities()
@@ -260,3 +266,6 @@ func atoi(s string) int {
 	n, _ := strconv.Atoi(s)
 	return n
 }
+
+// privOf: the private key the crash scenarios store with a public key (so that a mixture of two saves shows)
+func privOf(pub []byte) []byte { return append([]byte("private-key-of:"), pub...) }
